@@ -46,8 +46,8 @@ for c in [seg.point(t), seg.poly()(t), seg.points([t,0,1])[0], np.poly1d(bez2pol
     pass  # first round of queries
 for i, (nm, q) in enumerate(zip(['start', 'control', 'end'], qs)):
     if i in [1]: setattr(seg, nm, q)
-got = complex(seg.points([t,0,1])[0]); want = complex(bernF(qs, t))
+got = complex(seg.poly()(t)); want = complex(bernF(qs, t))
 if abs(got - want) > 1e-9 * max(1.0, max(abs(p) for p in qs)) * max(1.0, abs(t))**2:
-    REPRODUCED('QuadraticBezier.points after reassigning control points: got %r, oracle %r' % (got, want))
+    REPRODUCED('QuadraticBezier.poly after reassigning control points: got %r, oracle %r' % (got, want))
 
 NOT_REPRODUCED()
